@@ -47,6 +47,12 @@ def generate(seed, tier="quick", faults=True, light=False, **kw):
         files.append({"path": p, "lines": GC.gen_lines(r, ctx, secrets, o, r.randint(0, 14))})
         if o["ip"] and r.random() < 0.25:
             files[-1]["lines"].insert(r.randint(0, len(files[-1]["lines"])), GC.directed_line(r))
+        if o["ip"] and ctx["a4"] and r.random() < 0.12:
+            # an IPv6 address whose integer value equals that of an IPv4 address of the same tree
+            v = r.choice(ctx["a4"])
+            files[-1]["lines"].insert(r.randint(0, len(files[-1]["lines"])),
+                                      {"segs": [["lit", "ipv6 route "], ["a6", "::%x:%x" % (v >> 16, v & 0xFFFF), {"v": v}], ["lit", " via "],
+                                                ["a4", G.tok4(r, v, zeros=False), {"v": v}]], "eol": "\n"})
         if o["ip"] and r.random() < 0.15:
             # an IPv6 token with a dotted-quad tail: how it is tokenised is C06's (not applicable) subject; here it only
             # has to be the same in every execution and must not put addresses into the map that no input contains
